@@ -8,6 +8,7 @@ import (
 	"errors"
 	"strconv"
 	"sync"
+	"time"
 
 	"github.com/cybergarage/go-redis/redis"
 	"verif/double"
@@ -57,7 +58,11 @@ func (s *Store) Exists(c *redis.Conn, keys []string) (*redis.Message, error) {
 	return s.do(append([]string{"EXISTS"}, keys...)...)
 }
 func (s *Store) Expire(c *redis.Conn, key string, opt redis.ExpireOption) (*redis.Message, error) {
-	return s.do("EXISTS", key)
+	// logical expiry only (model.Entry.Vol): the programs use times a day away or times long past
+	if opt.Time.After(time.Now().Add(time.Hour)) {
+		return s.do("EXPIRE", key, "100000")
+	}
+	return s.do("EXPIRE", key, "0")
 }
 func (s *Store) Keys(c *redis.Conn, pattern string) (*redis.Message, error) {
 	return s.do("KEYS", pattern)
@@ -97,6 +102,12 @@ func (s *Store) Set(c *redis.Conn, key string, val string, opt redis.SetOption) 
 	}
 	if opt.GET {
 		argv = append(argv, "GET")
+	}
+	if opt.EX > 0 || opt.PX > 0 || !opt.EXAT.IsZero() || !opt.PXAT.IsZero() {
+		argv = append(argv, "EX", "100000")
+	}
+	if opt.KEEPTTL {
+		argv = append(argv, "KEEPTTL")
 	}
 	return s.do(argv...)
 }
